@@ -198,6 +198,19 @@ func cmdCheck(args []string) int {
 	// vacuity covers: the entry condition of each unit and each exit path must be satisfiable
 	covers := eng.coverObligations(results)
 	solveAll(dir, append(append([]*Obligation(nil), all...), covers...), timeout, thorough, 16)
+	// An obligation no solver decided within the tier's timeout is asked again, alone, with six times the
+	// time and every solver: a machine under load must not turn a proof into an alarm. (A genuine failure
+	// that the solvers cannot refute stays undecided either way and is then judged against the baseline.)
+	var again []*Obligation
+	for _, o := range all {
+		if o.Status == "unknown" || o.Status == "timeout" {
+			again = append(again, o)
+		}
+	}
+	if len(again) > 0 && len(again) <= 24 {
+		forgetCached(again)
+		solveAll(dir, again, 6*timeout, true, 4)
+	}
 
 	// aggregate by name
 	byName := map[string]*nameStatus{}
